@@ -54,6 +54,16 @@ PROPS = {
         "assumptions": ["the iterator's behaviour depends only on its cursor state (checked on every reachable state per type, by two different paths)", "element identity is carried by the tracking element type; reading a moved-out slot is observed as a read of a yielded identity"],
         "trusted_extra": ["Coq extraction to OCaml of model/Containers.v (Require Import ExtrOcamlBasic only; nat stays Peano; no Extract Constant / Extract Inductive of our own) plus extract/driver_c18.ml and the harness symx/src/corr_c18.rs (ownership-tracking element type Tok)"],
     },
+    "C15": {
+        "claimed": True,
+        "technique": "Coq proof over R (case analysis over every decision path, nra/lra, extreme-value principle via Coquelicot/Ranalysis, induction over partitions) over programs translated from the compiled code; one re-indexing lemma transfers the cubic proofs to all axes",
+        "level_text": "78 entry points. Quadratic (5 axes) and cubic (5 axes) *_inflection(s), min_*, max_*, *_bounds are translated (up to 188 control-flow paths each) and proved for ALL control points: reported inflections are zeros of the derivative in the unit interval and (cubic) every interior zero is reported; the min/max parameters lie in [0,1] and, whenever the coefficients the code compares with epsilon are exactly zero or exceed epsilon, NO point of the curve on [0,1] is lower/higher (via: a differentiable function on [0,1] attains its extrema at an end point or an interior critical point; quadratic-formula root lemmas). aabr/aabb (quadratic instances of the shared generic code, one free axis at a time) are proved to be the curve's coordinates at those parameters. The coarse phase of binary_search_point(_by_steps) returns a sample or the end point that is no farther than every other candidate (and the curve point of its parameter). length_by_discretization(n) equals the inscribed polyline length for n = 0..3 on all four curve types, and the polyline length is proved for EVERY n (induction) to be at least the chord and not to decrease when the segment count is doubled. None of these functions is executed by any unit test.",
+        "level_note": "Partial cells: optimality needs 'clean' coefficients (a coefficient in (0, eps] is treated as zero by the code and an extremum can then be missed by O(eps)); the refinement loop of binary_search_point (unbounded data-dependent iteration) is not translated: only the coarse phase is proved; cubic aabr/aabb instances (11468 paths) are not proved separately: they are the same generic code as the quadratic ones, composed with the cubic bounds proved above; the control-polygon upper bound of the length is not proved; for general step counts the loop shape (one segment per i = 0..step_count, up to the u16 maximum) is a hand-written model (model/PolyLen.v, theorems C15_loop_*) tied to the code by an extracted-model correspondence on step counts up to 65535. Trusted: Coq kernel; stdlib real-number axioms as printed; symx translator (self-checked each run, constant folding of literal sub-expressions in the pinned-axis entries); Rust parametricity. Exact real arithmetic.",
+        "design_ref": "DESIGN.md section 7, C15",
+        "assumptions": ["scalars are exact real numbers; T::epsilon() is an arbitrary positive real", "optimality statements assume the epsilon-compared coefficients are exactly zero or larger than epsilon in absolute value"],
+        "trusted_extra": ["Coq extraction to OCaml of model/PolyLen.v (Require Import ExtrOcamlBasic only; N, positive stay the extracted Coq datatypes) plus extract/driver_len.ml and the harness symx/src/corr_len.rs"],
+        "coq_timeout": 1700,
+    },
     "C03": {
         "claimed": True,
         "technique": "Coq proof (computation + induction over operation sequences) over programs translated from the compiled generic code by symbolic execution",
@@ -222,6 +232,12 @@ def extra_C02(tier, seed, ROOT, SYMX, sh):
         "reduce_and/reduce_or/reduce_ne on a concrete bool/integer/float vector disagree with the extracted Coq model BoolReduce (all / any element non-zero)",
         "every vector type x {bool, i8, u16, i32, u64, Wrapping<i16>, f32, f64}: all 2^n zero/non-zero patterns up to n=10 (quick) or n=16 (thorough); for wider vectors every pattern within 2 flips of all-zero / all-non-zero plus seeded random patterns; non-zero values cycle through extremes (MIN, MAX, -1, NaN, infinities, subnormals)")
     return problems, {"traces_validated_against_impl": extra["cases"], "bool_reduce_correspondence": extra}, wit
+
+def extra_C15(tier, seed, ROOT, SYMX, sh):
+    problems, extra, wit = run_corr("len", "PolyLen", tier, seed, ROOT, sh,
+        "length_by_discretization(step_count) does not sum one segment per parameter (i+1)/(step_count+1), i = 0..step_count, ending at 1 (extracted Coq model PolyLen)",
+        "step counts 0, 1, 2, 3, 7, 100, 255, 256, 1000, 65533, 65534, 65535 (thorough: more) on the quadratic and cubic 2D curves: the real code is run on the symbolic scalar, the number of distinct square roots and the largest parameter numerator are read from the recorded DAG; a panic (u16 overflow with overflow checks) is an outcome")
+    return problems, {"length_loop_correspondence": extra}, wit
 
 def extra_C18(tier, seed, ROOT, SYMX, sh):
     problems, extra, wit = run_corr("c18", "Containers", tier, seed, ROOT, sh,
